@@ -12,8 +12,10 @@ VERIF = os.path.dirname(os.path.dirname(os.path.abspath(__file__)))
 REPO = os.environ.get('VERIF_REPO', '/repo')
 LEAN = os.path.join(VERIF, 'lean')
 DRIVER = os.path.join(LEAN, '.lake', 'build', 'bin', 'ppdriver')
-EVIDENCE = os.path.join(VERIF, 'evidence')
-REPLAYS = os.path.join(VERIF, 'replays')
+# a run against a deliberately modified tree (tools/try_seed.sh) writes its evidence and replays elsewhere: the committed evidence
+# must come from runs against /repo itself
+EVIDENCE = os.environ.get('VERIF_EVIDENCE_DIR') or os.path.join(VERIF, 'evidence')
+REPLAYS = os.environ.get('VERIF_REPLAYS_DIR') or os.path.join(VERIF, 'replays')
 CORPUS = os.path.join(VERIF, 'corpus')
 HOOK_GUARD = 'PRETTYPRINTER_VERIF'
 STD_AXIOMS = {'propext', 'Classical.choice', 'Quot.sound'}
